@@ -307,7 +307,7 @@ def run_lsm_sim(c, make_wal=None):
     sim = Simulation(end_time=Instant.from_seconds(1000), entities=[lsm, w])
     for i, (t, op) in enumerate(c["ops"]):
         sim.schedule(Event(time=Instant(t), event_type="op", target=w, context={"op": op, "oid": i}))
-    _, verdict = run_bounded(sim)
+    _, verdict = run_bounded(sim, wall_s=600.0)
     return dict(log=log, windows=windows, verdict=verdict)
 
 
@@ -480,7 +480,7 @@ def impl_kv_conc(c):
     sim = Simulation(end_time=Instant.from_seconds(1000), entities=[kv, w])
     for i, (t, op) in enumerate(c["ops"]):
         sim.schedule(Event(time=Instant(t), event_type="op", target=w, context={"op": op, "oid": i}))
-    _, verdict = run_bounded(sim)
+    _, verdict = run_bounded(sim, wall_s=600.0)
     order_ok = list(kv._data.keys()) == kv._insertion_order
     return dict(log=log, verdict=verdict, windows=[], order_ok=order_ok)
 
@@ -605,7 +605,7 @@ def impl_txn(c):
     sim = Simulation(end_time=Instant.from_seconds(1000), entities=[kv, tm] + ws)
     for w, wk in zip(ws, c["workers"]):
         sim.schedule(Event(time=Instant(wk["t0"]), event_type="go", target=w, context={"w": wk}))
-    _, verdict = run_bounded(sim)
+    _, verdict = run_bounded(sim, wall_s=600.0)
     return dict(log=log, verdict=verdict, stats=[tm.stats.transactions_committed, tm.stats.transactions_aborted, tm.stats.conflicts_detected])
 
 
@@ -833,7 +833,7 @@ def impl_bt_conc(c):
     sim = Simulation(end_time=Instant.from_seconds(1000), entities=[bt, w])
     for i, (t, op) in enumerate(c["ops"]):
         sim.schedule(Event(time=Instant(t), event_type="op", target=w, context={"op": op, "oid": i}))
-    _, verdict = run_bounded(sim)
+    _, verdict = run_bounded(sim, wall_s=600.0)
     return dict(log=log, verdict=verdict)
 
 
@@ -904,6 +904,46 @@ TRUSTED = [
 PROOF_FILES = ["C14/Model.v", "C14/LsmProofs.v", "C14/SeqProofs.v", "C14/ConcProofs.v", "C14/KvTxnModel.v", "C14/KvTxnProofs.v", "C14/BtModel.v", "C14/BtProofs.v", "C14/Props.v"]
 
 
+def eval_cases_split(tag, imports, ok_fn, case_type, cases, shard=120, timeout=900, workers=4):
+    """Same contract as hsverif.coq.eval_cases (mismatch indices, errors), but every case is its own
+    [Definition] (one giant list literal makes coqc's elaboration superlinear) and no .glob is written."""
+    import os
+    import subprocess
+    from concurrent.futures import ThreadPoolExecutor
+    from hsverif import coq
+    d = os.path.join(coq.COQ, "_scratch", f"{tag}_{os.getpid()}")
+    os.makedirs(d, exist_ok=True)
+    shards = [cases[i:i + shard] for i in range(0, len(cases), shard)]
+    files = []
+    for si, sh in enumerate(shards):
+        fn = os.path.join(d, f"cases_{si}.v")
+        with open(fn, "w") as f:
+            f.write(imports + "\nLocal Open Scope Z_scope.\n")
+            for i, t in enumerate(sh):
+                f.write(f"Definition c{i} : {case_type} := {t}.\n")
+            f.write(f"Definition cases : list ({case_type}) := [{'; '.join(f'c{i}' for i in range(len(sh)))}].\n")
+            f.write(f"Eval vm_compute in (mismatches {ok_fn} cases).\n")
+        files.append(fn)
+
+    def one(fn):
+        return coq.run(["coqc", "-noglob", "-R", coq.COQ, "HS", fn], cwd=d, timeout=timeout)
+
+    bad, errors = [], []
+    with ThreadPoolExecutor(max_workers=workers) as ex:
+        for si, (rc, out) in enumerate(ex.map(one, files)):
+            if rc != 0:
+                errors.append(f"shard {si}: coqc failed: {out[-1500:]}")
+                continue
+            idx = coq._parse_zlist(out)
+            if idx is None:
+                errors.append(f"shard {si}: cannot parse coqc output: {out[-500:]}")
+                continue
+            bad.extend(si * shard + i for i in idx)
+    if not errors:
+        subprocess.run(["rm", "-rf", d])
+    return bad, errors
+
+
 class Pre:
     """ctx proxy for one family.  coqc start-up dominates the cost of a run, so the in-Coq evaluation of all
     families is started up front, concurrently (one coqc per ~150 cases), from a pre-pass that generates the same
@@ -930,8 +970,8 @@ class Pre:
                 except Exception:  # noqa: BLE001  (run_family reports it)
                     pass
         self._terms = terms
-        self._shard = max(20, min(150, (len(terms) + 3) // 4)) if len(terms) > 200 else len(terms) + 1
-        self._fut = pool.submit(coq.eval_cases, f"{ctx.pid}_{fam.name}", fam.imports, fam.ok_fn, fam.case_type, terms,
+        self._shard = 120
+        self._fut = pool.submit(eval_cases_split, f"{ctx.pid}_{fam.name}", fam.imports, fam.ok_fn, fam.case_type, terms,
                                 shard=self._shard, workers=4) if terms else None
 
     def __getattr__(self, name):
@@ -942,15 +982,15 @@ class Pre:
         if self._fut is not None and cases == self._terms:
             fut, self._fut = self._fut, None
             return fut.result()
-        return coq.eval_cases(f"{self._ctx.pid}_{tag}_again", imports, ok_fn, case_type, cases, shard=self._shard)
+        return eval_cases_split(f"{self._ctx.pid}_{tag}_again", imports, ok_fn, case_type, cases, shard=self._shard)
 
 
 def run(ctx):
     ctx.prove(PROOF_FILES, allowed_axioms=(), trusted_base=TRUSTED)
     fam = {f.name: f for f in FAMILIES}
     from concurrent.futures import ThreadPoolExecutor
-    plan = [("lsm_seq", ctx.n(100, 600)), ("lsm_conc", ctx.n(200, 1000)), ("kv_conc", ctx.n(60, 300)),
-            ("txn", ctx.n(100, 600)), ("bt_seq", ctx.n(80, 500)), ("bt_conc", ctx.n(100, 600))]
+    plan = [("lsm_seq", ctx.n(100, 400)), ("lsm_conc", ctx.n(150, 700)), ("kv_conc", ctx.n(60, 200)),
+            ("txn", ctx.n(100, 400)), ("bt_seq", ctx.n(80, 300)), ("bt_conc", ctx.n(100, 400))]
     stats = []
     with ThreadPoolExecutor(max_workers=6) as pool:
         pres = [Pre(ctx, fam[name], n, pool) for name, n in plan]
